@@ -1,6 +1,7 @@
 import Heathcliff.Gen.RnsFns
 import Heathcliff.Model.RNS
 import Heathcliff.Proofs.GenWord
+import Heathcliff.Proofs.GenWord2
 import Heathcliff.Proofs.GenWord3
 import Heathcliff.Proofs.C08A
 
@@ -1252,3 +1253,178 @@ theorem gr_mapM_forall' {α β : Type} (f : α → R β) (P : α → β → Prop
         · exact ⟨a, by simp, by rw [h1]; exact hf a (by simp) b hfa⟩
         · obtain ⟨x, hx, hp⟩ := ih (fun x hx => hf x (by simp [hx])) bs hl y h1
           exact ⟨x, by simp [hx], hp⟩
+
+/-! ### `RNSTool::sm_mrq` (Montgomery reduction mod q in base Bsk ∪ {m̃}; separate destination buffer) -/
+
+theorem gr_multiply_operand_eq (c : List Nat) (o : MulOperand) (m : Modulus) (r : List Nat) (h : r.length = c.length) :
+    GenR.multiply_operand c o m r = c.mapM (fun x => mulOperandMod x o m) := by
+  unfold GenR.multiply_operand
+  rw [h, Nat.min_self]
+  rw [gr_idxloop (GenR.multiply_operand_loop1 c o m) (fun j _ => mulOperandMod (c.getD j 0) o m) c.length (fun _ _ => rfl) (by
+    intro n i l hi hc
+    rw [GenR.multiply_operand_loop1]
+    simp only [gw_idx_eq _ _ hc, bind, Except.bind, gw_multiply_u64operand_mod_eq, gx_setIdx_ok _ _ _ hi]
+    rw [List.getD_eq_getElem?_getD, List.getElem?_eq_getElem hc]; rfl) c.length 0 r (by omega) (by omega)]
+  have := gr_range_mapM (fun x => mulOperandMod x o m) c 0
+  simp only [Nat.sub_zero] at this
+  rw [this]
+  cases c.mapM (fun x => mulOperandMod x o m) with
+  | error e => rfl
+  | ok ys => rfl
+
+/-- the fold when the step does not read the component list at all -/
+theorem gr_foldM_const (comp : Nat → R (List Nat)) :
+    ∀ k i (cs : List (List Nat)), i + k ≤ cs.length →
+      gr_foldM (fun i _ => comp i) k i cs = ((List.range' i k).mapM comp >>= fun outs => .ok (cs.take i ++ outs ++ cs.drop (i + k))) := by
+  intro k
+  induction k with
+  | zero => intro i cs _; rw [gr_foldM, List.range'_zero, gr_mapM_nil, gr_ok_bind, List.append_nil, Nat.add_zero, List.take_append_drop]
+  | succ k ih =>
+    intro i cs hik
+    rw [gr_foldM, List.range'_succ, gr_mapM_cons]
+    cases hci : comp i with
+    | error e => rfl
+    | ok c =>
+      rw [gr_ok_bind, gr_ok_bind, ih (i+1) (cs.set i c) (by rw [List.length_set]; omega)]
+      cases (List.range' (i+1) k).mapM comp with
+      | error e => rfl
+      | ok outs =>
+        rw [gr_ok_bind, gr_ok_bind, gr_ok_bind]
+        have e2 : i + (k + 1) = i + 1 + k := by omega
+        have hi : i < cs.length := by omega
+        have ht : (cs.set i c).take (i + 1) = cs.take i ++ [c] := by
+          rw [List.take_succ_eq_append_getElem (by rw [List.length_set]; exact hi), List.getElem_set_self, List.take_set_of_le (Nat.le_refl i)]
+        rw [e2, ht, List.drop_set_of_lt (by omega)]
+        simp
+
+/-- one coefficient of `sm_mrq`: centred r_m̃ (checked `+= b − m̃`), `(temp·[q]_b + x)·m̃⁻¹ mod b` -/
+def gr_smElt (b mt : Modulus) (half : Nat) (pq inv : MulOperand) (rm x : Nat) : R Nat :=
+  (if rm ≥ half then (ckSub b.value mt.value >>= fun d => ckAdd rm d) else pure rm) >>= fun temp =>
+  mulOperandAddMod temp pq x b >>= fun u => mulOperandMod u inv b
+
+def gr_smComp (b mt : Modulus) (half pqv : Nat) (inv : MulOperand) (rmt xi : List Nat) : R (List Nat) :=
+  MulOperand.new pqv b >>= fun pq => (List.range' 0 rmt.length).mapM (fun j => gr_smElt b mt half pq inv (rmt.getD j 0) (xi.getD j 0))
+
+theorem gr_sm_loop2 (inp : List (List Nat)) (ds : List (List Nat)) (sB n i half : Nat) (rmt : List Nat) (b mt : Modulus) (pq : MulOperand) (invs : List MulOperand)
+    (hi : i < sB) (hsn : (sB + 1) * n < 2^64) (hinp : inp.length = sB + 1) (hin : ∀ c ∈ inp, c.length = n)
+    (hds : ds.length = sB) (hdn : ∀ c ∈ ds, c.length = n) (hr : rmt.length = n) (hinv : sB ≤ invs.length) :
+    GenR.sm_mrq_loop2 inp.flatten n half rmt i b pq mt invs n 0 ds.flatten
+      = ((List.range' 0 n).mapM (fun j => gr_smElt b mt half pq (invs.getD i default) (rmt.getD j 0) ((inp.getD i []).getD j 0))
+          >>= fun d => .ok (ds.set i d).flatten) := by
+  have hfi := gr_flat_length n inp hin
+  rw [hinp] at hfi
+  have hfd := gr_flat_length n ds hdn
+  rw [hds] at hfd
+  have hin1 : i * n + n ≤ sB * n := by
+    have := Nat.mul_le_mul_right n (Nat.succ_le_of_lt hi); rw [Nat.succ_mul] at this; exact this
+  have hsb : sB * n + n = (sB + 1) * n := by rw [Nat.succ_mul]
+  rw [gr_offloop (GenR.sm_mrq_loop2 inp.flatten n half rmt i b pq mt invs)
+      (fun j _ => gr_smElt b mt half pq (invs.getD i default) (rmt.getD j 0) (inp.flatten.getD (i*n + j) 0)) (i*n) n (fun _ _ => rfl) (by
+      intro k j l hj hjn
+      rw [GenR.sm_mrq_loop2]
+      have hrj : j < rmt.length := by omega
+      have e1 : ckMul i n = .ok (i*n) := gr_ckMul_ok (by omega)
+      have e2 : ckAdd (i*n) j = .ok (i*n + j) := gr_ckAdd_ok (by omega)
+      have hlt : i*n + j < inp.flatten.length := by omega
+      have e3 : GenW.idx inp.flatten (i*n + j) = .ok (inp.flatten.getD (i*n+j) 0) := by rw [gw_idx_eq _ _ hlt, gr_getD_of_lt _ _ hlt]
+      have e4 : GenR.idxOp invs i = .ok (invs.getD i default) := gr_idxOp_ok invs i _ (by omega)
+      simp only [e1, e2, e3, e4, gw_idx_eq _ _ hrj, gr_getD_of_lt _ _ hrj, gr_ok_bind, gw_multiply_u64operand_add_u64_mod_eq,
+        gw_multiply_u64operand_mod_eq, gx_setIdx_ok _ _ _ hj]
+      unfold gr_smElt
+      by_cases hge : rmt[j] ≥ half
+      · simp only [if_pos hge]
+        cases ckSub b.value mt.value with
+        | error e => rfl
+        | ok d =>
+          simp only [gr_ok_bind]
+          cases ckAdd rmt[j] d with
+          | error e => rfl
+          | ok t =>
+            simp only [gr_ok_bind]
+            cases mulOperandAddMod t pq (inp.flatten.getD (i*n+j) 0) b with
+            | error e => rfl
+            | ok u => rfl
+      · simp only [if_neg hge, gr_ok_bind, gr_pure]
+        cases mulOperandAddMod rmt[j] pq (inp.flatten.getD (i*n+j) 0) b with
+        | error e => rfl
+        | ok u => rfl)
+    n 0 ds.flatten (by omega) (by omega)]
+  have hcg : (List.range' 0 n).mapM (fun j' => gr_smElt b mt half pq (invs.getD i default) (rmt.getD j' 0) (inp.flatten.getD (i*n + j') 0))
+      = (List.range' 0 n).mapM (fun j => gr_smElt b mt half pq (invs.getD i default) (rmt.getD j 0) ((inp.getD i []).getD j 0)) := by
+    apply gr_mapM_congr
+    intro j hj
+    rw [List.mem_range'_1] at hj
+    rw [gr_flat_getD n inp i j hin (by omega) (by omega)]
+  rw [hcg]
+  cases hm : (List.range' 0 n).mapM (fun j => gr_smElt b mt half pq (invs.getD i default) (rmt.getD j 0) ((inp.getD i []).getD j 0)) with
+  | error e => rfl
+  | ok d =>
+    have hdl : d.length = n := by rw [gr_mapM_length _ _ _ hm, List.length_range']
+    rw [gr_ok_bind, gr_ok_bind, Nat.add_zero, ← gr_splice_flat n ds i d hdn (by omega) hdl]
+    unfold GenR.splice
+    rw [hdl]
+
+theorem gr_sm_loop (inp : List (List Nat)) (bs : List Modulus) (pqs : List Nat) (invs : List MulOperand) (mt : Modulus) (sB n half : Nat) (rmt : List Nat)
+    (hbs : bs.length = sB) (hpq : pqs.length = sB) (hpqw : ∀ x ∈ pqs, x < 2^64) (hinv : sB ≤ invs.length)
+    (hsn : (sB + 1) * n < 2^64) (hinp : inp.length = sB + 1) (hin : ∀ c ∈ inp, c.length = n) (hr : rmt.length = n) :
+    ∀ k i (ds : List (List Nat)), i + k = sB → ds.length = sB → (∀ c ∈ ds, c.length = n) →
+      GenR.sm_mrq_loop1 inp.flatten sB n half rmt bs pqs mt invs k i ds.flatten
+        = (gr_foldM (fun i _ => gr_smComp (bs.getD i gr_dflt) mt half (pqs.getD i 0) (invs.getD i default) rmt (inp.getD i [])) k i ds
+            >>= fun ds' => .ok ds'.flatten) := by
+  intro k
+  induction k with
+  | zero => intro i ds _ _ _; rfl
+  | succ k ih =>
+    intro i ds hik hds hdn
+    have e1 : GenR.idxMod bs i = .ok (bs.getD i gr_dflt) := gr_idxMod_ok bs i _ (by omega)
+    have hpi : i < pqs.length := by omega
+    have e2 : GenW.idx pqs i = .ok (pqs.getD i 0) := by rw [gw_idx_eq _ _ hpi, gr_getD_of_lt _ _ hpi]
+    have e3 : GenW.mulop_new (pqs.getD i 0) (bs.getD i gr_dflt) = MulOperand.new (pqs.getD i 0) (bs.getD i gr_dflt) :=
+      gx_mulop_new_eq _ _ (gr_getD_mem_lt hpqw (by norm_num) i)
+    rw [GenR.sm_mrq_loop1, gr_foldM]
+    simp only [e1, e2, e3, gr_ok_bind]
+    have hc : gr_smComp (bs.getD i gr_dflt) mt half (pqs.getD i 0) (invs.getD i default) rmt (inp.getD i [])
+        = (MulOperand.new (pqs.getD i 0) (bs.getD i gr_dflt) >>= fun pq => (List.range' 0 n).mapM
+            (fun j => gr_smElt (bs.getD i gr_dflt) mt half pq (invs.getD i default) (rmt.getD j 0) ((inp.getD i []).getD j 0))) := by
+      unfold gr_smComp; rw [hr]
+    rw [hc]
+    cases MulOperand.new (pqs.getD i 0) (bs.getD i gr_dflt) with
+    | error e => rfl
+    | ok pq =>
+      simp only [gr_ok_bind]
+      rw [gr_sm_loop2 inp ds sB n i half rmt (bs.getD i gr_dflt) mt pq invs (by omega) hsn hinp hin hds hdn hr hinv]
+      cases hm : (List.range' 0 n).mapM (fun j => gr_smElt (bs.getD i gr_dflt) mt half pq (invs.getD i default) (rmt.getD j 0) ((inp.getD i []).getD j 0)) with
+      | error e => rfl
+      | ok d =>
+        have hdl : d.length = n := by rw [gr_mapM_length _ _ _ hm, List.length_range']
+        simp only [gr_ok_bind]
+        exact ih (i+1) _ (by omega) (by rw [List.length_set]; exact hds) (gr_set_length_mem n ds i d hdn hdl)
+
+/-- the generated `sm_mrq` on flat buffers: input `sB + 1` components (the last one mod m̃), destination `sB` components (old contents irrelevant) -/
+theorem gr_sm_list (inp ds : List (List Nat)) (bs : List Modulus) (pqs : List Nat) (invs : List MulOperand) (mt : Modulus) (ninv : MulOperand) (sB n : Nat)
+    (hbs : bs.length = sB) (hpq : pqs.length = sB) (hpqw : ∀ x ∈ pqs, x < 2^64) (hinv : sB ≤ invs.length)
+    (hsn : (sB + 1) * n < 2^64) (hs64 : sB + 1 < 2^64) (hinp : inp.length = sB + 1) (hin : ∀ c ∈ inp, c.length = n)
+    (hds : ds.length = sB) (hdn : ∀ c ∈ ds, c.length = n) :
+    GenR.sm_mrq inp.flatten ds.flatten sB bs n mt ninv pqs invs =
+      ((List.range' 0 sB).mapM (fun i => gr_smComp (bs.getD i gr_dflt) mt (mt.value / 2) (pqs.getD i 0) (invs.getD i default)
+          ((inp.getD sB []).map (fun x => mulOpV x ninv mt)) (inp.getD i [])) >>= fun outs => .ok outs.flatten) := by
+  have hlastlen : (inp.getD sB []).length = n := hin _ (gr_getD_mem inp sB (by omega))
+  have hsb : (sB + 1) * n = sB * n + n := Nat.succ_mul sB n
+  have e1 : ckMul sB n = .ok (sB * n) := gr_ckMul_ok (by omega)
+  have e2 : ckAdd sB 1 = .ok (sB + 1) := gr_ckAdd_ok hs64
+  have e3 : ckMul (sB + 1) n = .ok (sB * n + n) := by rw [gr_ckMul_ok hsn, Nat.succ_mul]
+  have e4 : GenR.slice inp.flatten (sB * n) (sB * n + n) = .ok (inp.getD sB []) := gr_slice_flat n inp sB hin (by omega)
+  have e5 : GenR.multiply_operand (inp.getD sB []) ninv mt (List.replicate n 0) = .ok ((inp.getD sB []).map (fun x => mulOpV x ninv mt)) := by
+    rw [gr_multiply_operand_eq _ _ _ _ (by rw [List.length_replicate, hlastlen])]
+    exact gr_mapM_ok _ _ _ (fun x _ => gr_mulOperandMod _ _ _)
+  have hhalf : mt.value >>> 1 = mt.value / 2 := by rw [Nat.shiftRight_eq_div_pow]
+  unfold GenR.sm_mrq
+  simp only [e1, e2, e3, e4, e5, hhalf, gr_ok_bind]
+  rw [gr_sm_loop inp bs pqs invs mt sB n _ _ hbs hpq hpqw hinv hsn hinp hin (by rw [List.length_map, hlastlen]) sB 0 ds (by omega) hds hdn,
+    gr_foldM_const _ sB 0 ds (by omega)]
+  cases (List.range' 0 sB).mapM (fun i => gr_smComp (bs.getD i gr_dflt) mt (mt.value / 2) (pqs.getD i 0) (invs.getD i default)
+          ((inp.getD sB []).map (fun x => mulOpV x ninv mt)) (inp.getD i [])) with
+  | error e => rfl
+  | ok outs =>
+    simp only [gr_ok_bind]
+    rw [List.take_zero, List.nil_append, Nat.zero_add, List.drop_eq_nil_of_le (by omega), List.append_nil]
